@@ -178,6 +178,26 @@ pub fn run_c04(tier: &str, seed: u64, shard: u64, nshards: u64, scale: f64, stat
         if i % 5000 == 0 {
             emit_progress(n + i);
         }
+        if r.chance(1, 5) {
+            // a whitespace-free word with an indicator character placed around a multiple of the
+            // 16-char (BufferedInput) or 128-char (StrInput) look-ahead chunk
+            let base = r.pick(&[16usize, 16, 32, 48, 128, 128, 256]);
+            let at = (base + r.below(3)).saturating_sub(1);
+            let total = at + r.range(1, 6);
+            let mut t = String::new();
+            for i in 0..total {
+                if i == at {
+                    t.push(r.pick(&['#', ':', ',', '\'', '"', '-', ']', '}', '\\', 'é']));
+                } else {
+                    t.push(r.pick(&['a', 'b', 'c', 'x', '1', '/', '.', '_']));
+                }
+            }
+            let si = r.below(3);
+            let c = r.below(CONTEXTS.len());
+            c04_one(&t, si, c, &mut r, stats);
+            stats.cnt("long_word_targets", 1);
+            continue;
+        }
         let len = match r.below(10) {
             0..=3 => r.range(1, 10),
             4..=7 => r.range(8, 24),
@@ -428,4 +448,34 @@ pub fn replay_c05(case: &J, stats: &mut Stats) {
     let folded = case.get("folded").and_then(J::as_bool).unwrap_or(false);
     stats.eval(Some(input.as_bytes()));
     c05_check(&input, &expected, if folded { ScalarStyle::Folded } else { ScalarStyle::Literal }, "replay", stats, case);
+}
+
+/// A random block-scalar document (text only), used as a feeder for the C01 family of monitors.
+pub fn random_block_doc(r: &mut Rng) -> String {
+    let len = r.below(8);
+    let lines: Vec<String> = (0..len).map(|_| r.pick(&LINE_KINDS).to_string()).collect();
+    let chomp = r.pick(&[Chomp::Strip, Chomp::Clip, Chomp::Keep]);
+    let parent = r.below(PARENTS.len());
+    let (prefix, n, sibling) = parent_ctx(parent);
+    let base = (n + 1).max(0) as usize;
+    let ci = base + r.below(4) + if r.chance(1, 3) { 11 + r.below(8) } else { 0 };
+    let explicit = r.chance(1, 3);
+    match render_block_scalar(&lines, r.chance(1, 2), chomp, n, ci.max(1), explicit, r.chance(1, 6), r) {
+        Some(br) => {
+            let mut t = format!("{prefix}{}\n", br.header);
+            for l in &br.body_lines {
+                t.push_str(l);
+                t.push('\n');
+            }
+            match r.below(4) {
+                0 => {
+                    t.pop();
+                }
+                1 => t.push_str(&sibling),
+                _ => {}
+            }
+            t
+        }
+        None => format!("{prefix}|\n"),
+    }
 }
